@@ -201,6 +201,11 @@ func renderMpcl(mc *mpCase) string {
 			a := name(s.X)
 			n := def(rType{s: types[s.X-1].elem})
 			fmt.Fprintf(&body, "\t%s := %s[%d]\n", n, a, s.C)
+		case "arrl":
+			x := name(s.X)
+			et := types[s.X-1].s
+			n := def(rType{s: "[3]" + et, elem: et})
+			fmt.Fprintf(&body, "\tvar %s [3]%s\n\t%s[0] = %d\n\t%s[1] = %s\n\t%s[2] = %d\n", n, et, n, s.Z, n, x, n, s.C)
 		case "idxv":
 			a, u := name(s.X), name(s.Y)
 			n := def(rType{s: types[s.X-1].elem})
